@@ -182,6 +182,27 @@ def body(chk, db, cfgname):
                     raise AnalysisBroken("the way the contracted monomial is assembled is not recognised (neither std::copy nor insert of ranges of m)")
                 if any(a1 is None or b1 is None for a1, b1 in ranges):
                     raise AnalysisBroken("a range appended to the contracted monomial is not of the form m.begin()+k / m.end()")
+                # the ranges are APPENDED: the receiving monomial must be empty whenever a contraction starts, i.e. it is declared
+                # (or cleared / re-assigned) inside every loop that encloses the appends -- a buffer declared once per call and
+                # never cleared still holds the previous contraction's factors when a second contraction happens in the same call
+                appends = [c for c in f.calls() if (strip_targs(f.nodes[c].get("cname") or "") == "std::copy" and key_contains(ctx.key(c, inline=False), lambda y: y[:2] == rk[2][:2])) or
+                           (strip_targs(f.nodes[c].get("cname") or "") == "std::vector::insert" and f.nodes[c].get("obj") is not None and ctx.key(f.nodes[c]["obj"], inline=False)[:2] == rk[2][:2])]
+                dnode = dv_.get("declnode") if 'dv_' in dir() else None
+                dv0 = ctx.decls.get(rk[2][1], {})
+                dnode = dv0.get("declnode")
+                if appends and dnode is not None:
+                    Lapp = set(enclosing_loops(f, appends[0]))
+                    Ldecl = set(enclosing_loops(f, dnode))
+                    fresh = Lapp <= Ldecl
+                    if not fresh:
+                        for c in f.calls():
+                            nn_ = f.nodes[c]
+                            if nn_.get("ck") == "method" and strip_targs(nn_.get("cname") or "").split("::")[-1] == "clear" and nn_.get("obj") is not None and ctx.key(nn_["obj"], inline=False)[:2] == rk[2][:2] \
+                                    and Lapp <= set(enclosing_loops(f, c)) and f.cfg.dominates(f.cfg.pos1(c), f.cfg.pos1(appends[0])):
+                                fresh = True
+                    if not fresh:
+                        probs.append("the monomial that receives the contraction is declared outside the sorting loop and never cleared: when one call performs a second contraction "
+                                     "(a product that needs two or more, e.g. (c0 c1)(c+0 c+1)) the new factors are appended to those of the first")
                 want_r = [(("b", _sp.Integer(0)), ("b", nsym - 1)), (("b", nsym + 1), ("e", _sp.Integer(0)))]
                 norm_r = [((a1[0], _sp.expand(a1[1])), (b1[0], _sp.expand(b1[1]))) for a1, b1 in ranges]
                 if norm_r != want_r:
@@ -546,12 +567,19 @@ def body(chk, db, cfgname):
         with r4.guard(OP + "::" + nm, g.loc(), cfgname):
             gctx = Ctx(g, db)
             B = pk(g, 0)
-            rets = [j for j, n in g.walk(g.body) if n["k"] == "return"]
-            k = unctor(gctx.key(g.nodes[rets[0]]["sub"]))
+            rets = [j for j, n in g.walk(g.body) if n["k"] == "return" and n.get("sub") is not None]
             AB, BA = ("op", "*", A, B), ("op", "*", B, A)
-            good = k[:2] == want and ((unctor(k[2]), unctor(k[3])) == (AB, BA) or (want[1] in ("+", "==") and (unctor(k[2]), unctor(k[3])) == (BA, AB)))
-            if good:
+
+            def is_good(k):
+                return k[:2] == want and len(k) == 4 and ((unctor(k[2]), unctor(k[3])) == (AB, BA) or (want[1] in ("+", "==") and (unctor(k[2]), unctor(k[3])) == (BA, AB)))
+            verdicts = [is_good(unctor(gctx.key(g.nodes[j]["sub"]))) for j in rets]
+            if rets and all(verdicts):
                 r4.ok(OP + "::" + nm, g.loc(), "(*this)*rhs %s rhs*(*this)" % want[1], cfgname)
+            elif any(verdicts):
+                # a further return (a fast path that answers without forming the products): whether its condition implies the
+                # same answer is a statement about operator algebra, not about the shape of the code -- no verdict
+                other = [j for j, v_ in zip(rets, verdicts) if not v_][0]
+                r4.unknown(OP + "::" + nm, g.loc(other), "%s also returns %s on a path that does not compare (*this)*rhs with rhs*(*this) (fast path not analysed)" % (nm, g.s(g.nodes[other]["sub"])[:40]), cfgname)
             else:
                 r4.bad(OP + "::" + nm, g.loc(), "%s is not built as (*this)*rhs %s rhs*(*this)" % (nm, want[1]), cfgname)
 
